@@ -63,4 +63,5 @@ class DownChunkingPlugin(Plugin):
                         f"{self.__class__.__name__} returned a Chunk with data_type "
                         f"{v.data_type} instead of {d}."
                     )
+                self._check_dtype(v.data, d)
             yield self.superrun_transformation(_result, superrun, subruns)
